@@ -12,7 +12,8 @@ PROPS_FILE = 'theories/Props/C06.v'
 PROPS_MODULE = 'Props.C06'
 COQ_TARGETS = ['theories/Extract/ExtractC06.vo']
 REQUIRED_THEOREMS = ['C06_total', 'C06_budget', 'C06_limit_error', 'C06_cycle_error', 'C06_operands_total',
-                     'C06_exact_parser_in_range', 'C06_calls_bounded', 'C06_bounded_partial', 'C06_bounded_bytes_partial']
+                     'C06_exact_parser_in_range', 'C06_calls_bounded', 'C06_bounded_partial', 'C06_bounded_bytes_partial',
+                     'C06_bounded_bytes', 'C06_bounded_bytes_linear', 'C06_exact_parser_prints_short']
 MODEL = 'resolver'
 HARNESS_BINS = ['bundle_run', 'syn_run']
 RELEASE_TOO = True
@@ -37,11 +38,13 @@ ASSUMPTIONS = [
     'PluralOperands::try_from(f64).expect(..) is reachable in the exact-decimal model, not in Rust',
     'C06_bounded_partial / C06_calls_bounded: see PARTIAL',
 ]
-PARTIAL = ('C06_bounded is proved as C06_bounded_partial: the number of tokens written is bounded ((MAX_PLACEABLES+1) x widest pattern), and as '
-           'C06_bounded_bytes_partial: bytes <= W x that number when every written piece has <= W bytes (hypothesis on the pieces, not yet derived '
-           'from bounds on the inputs); a full input-side byte bound is not proved: a byte bound needs a bound on every value that can be printed, and NUMBER(1, minimumFractionDigits: 99999999999) makes '
-           'FluentNumber::as_string ask for ~10^11 bytes (known real-code finding D11, never generated here). The exact-decimal float parser used '
-           'by the extracted model meets values_are_f64 for literals of at most 19 bytes (C06_exact_parser_in_range), not for all strings.')
+PARTIAL = ('the byte bound is PROVED from bounds on the INPUTS only (C06_bounded_bytes_linear: bytes <= 102 x Tmax + 808 x W, Tmax = largest '
+           'text sum of a pattern, W from the longest string of the resources, the longest printed argument and the bound F on user callbacks; '
+           'C06_bounded_bytes: the product form), under two premises on the resources: (1) named_args_ok — no named-argument value is a '
+           'message/term reference or placeable: guaranteed by the grammar and, since the fix of D32, enforced by the parser (not yet proved as a '
+           'theorem about parser outputs); (2) every minimumFractionDigits literal <= K — this excludes exactly the known finding D11 '
+           '(NUMBER(1, minimumFractionDigits: 99999999999) asks for ~10^11 bytes). The exact-decimal float parser used by the extracted model '
+           'meets values_are_f64 for literals of at most 19 bytes (C06_exact_parser_in_range), not for all strings.')
 RULE = ('designed generators: placeable limit forced to trip at every syntactic position (select variant, nested placeable, call argument, term '
         'and message attribute, selector) by a counted prefix of placeables; reference graphs (chains, fan-out of arity 2..10, cycles through '
         'messages/terms/attributes/variants/arguments); missing references of every kind; selects on every value kind x locales; number literals, '
@@ -53,10 +56,11 @@ MANIFEST = {
             'on `travelled`, AST depth); the placeable counter ends <= MAX_PLACEABLES+1 < 2^8 (C06_budget, constants regenerated from pattern.rs); '
             'counter at the limit or dirty => TooManyPlaceables reported, re-entered pattern => Cyclic (C06_limit_error, C06_cycle_error); '
             'plural operands never panic for any f64 and any minimum_fraction_digits (C06_operands_total); function invocations and tokens '
-            'written are bounded by (MAX_PLACEABLES+1) x local size (C06_calls_bounded, C06_bounded_partial). The model is tied to the Rust '
+            'written are bounded by (MAX_PLACEABLES+1) x local size (C06_calls_bounded, C06_bounded_partial); output BYTES are bounded by a '
+            'fixed multiple of input sizes (C06_bounded_bytes_linear; premises: named arguments are literals, minimumFractionDigits bounded). The model is tied to the Rust '
             'resolver by running the extracted model and the real bundle (debug and release) on the same generated cases.',
     'note': 'Trusted: Coq kernel, extraction, the hand transliteration (validated by the differential run), exact-decimal stand-in for f64 '
-            '(<= 15 significant digits), purity/totality of user callbacks. Partial: byte-length bound (D11: minimumFractionDigits is unbounded).',
+            '(<= 15 significant digits), purity/totality of user callbacks. Byte bound proved under named_args_ok and a bound on minimumFractionDigits (D11). D32 (exponential output through reference-valued named arguments) found by this proof and fixed.',
     'technique': 'Rocq proof (induction on fuel over the 8 mutually recursive resolver functions with a scope invariant) + differential '
                  'correspondence check + implementation-only oracle',
     'design_ref': 'DESIGN.md §4 C06',
